@@ -615,17 +615,38 @@ class PA:
     def __rsub__(self, o):
         return _ew2(o, self, i_sub, 'i', lambda x, y: x)
 
+    def _real(self, o):
+        return self.kind == 'f' or isinstance(o, float) or (isinstance(o, PA) and o.kind == 'f')
+
     def __lt__(self, o):
-        return _ew2(self, o, i_lt, 'b')
+        return _ew2(self, o, sym.v_lt if self._real(o) else i_lt, 'b')
 
     def __le__(self, o):
-        return _ew2(self, o, i_le, 'b')
+        return _ew2(self, o, sym.v_le if self._real(o) else i_le, 'b')
 
     def __gt__(self, o):
-        return _ew2(o, self, i_lt, 'b')
+        return _ew2(o, self, sym.v_lt if self._real(o) else i_lt, 'b')
 
     def __ge__(self, o):
-        return _ew2(o, self, i_le, 'b')
+        return _ew2(o, self, sym.v_le if self._real(o) else i_le, 'b')
+
+    def __and__(self, o):
+        if self.kind != 'b':
+            raise Unsupported('& of a non-boolean array')
+        return _ew2(self, o, lambda x, y: b_and(x, y), 'b')
+    __rand__ = __and__
+
+    def __or__(self, o):
+        if self.kind != 'b':
+            raise Unsupported('| of a non-boolean array')
+        return _ew2(self, o, lambda x, y: b_or(x, y), 'b')
+    __ror__ = __or__
+
+    def __xor__(self, o):
+        if self.kind != 'b':
+            raise Unsupported('^ of a non-boolean array')
+        return _ew2(self, o, lambda x, y: b_not(b_iff(x, y)), 'b')
+    __rxor__ = __xor__
 
     def __eq__(self, o):
         return _ew2(self, o, b_iff if self.kind == 'b' else i_eq, 'b')
@@ -714,6 +735,11 @@ class PA:
                 _scatter(self.data, key, value, self, self.length())
                 self._stored()
                 return
+            if key.kind == 'b' and key.ndim == 1 and self.ndim > 1:
+                self._need_dense('masked assignment target')
+                _masked_axis_set(self, (key,), 0, value)
+                self._stored()
+                return
             if key.kind == 'b':
                 r = _masked_set(self, key, value)
                 self.data[...] = r.data
@@ -764,8 +790,8 @@ def _norm_key(key):
     """index components that are concrete by construction become plain numpy / python indices: a `lit` array (the caller's
     connectivity), a symbolic size used as an integer index (the exploration forks over its values)"""
     def one(k):
-        if isinstance(k, PA) and k.lit and k.dense:
-            return k.to_numpy()
+        if isinstance(k, PA) and k.dense and (k.lit or (k.kind == 'i' and all(num(v) for v in k.data.reshape(-1)))):
+            return k.to_numpy()        # (boolean masks stay on the model path: they are what the model is about)
         if isinstance(k, SInt):
             return int(k)
         return k
@@ -789,6 +815,14 @@ def _operand(x):
         d = onp.empty((), dtype=object)
         d[()] = int(x)
         return d, (), (int(x) if x >= 0 else None)
+    if isinstance(x, (float, onp.floating)):
+        d = onp.empty((), dtype=object)
+        d[()] = float(x)
+        return d, (), None
+    if isinstance(x, px.SymReal):
+        d = onp.empty((), dtype=object)
+        d[()] = x.z
+        return d, (), None
     a = onp.asarray(x)
     if a.dtype == object or a.dtype.kind not in 'iub':
         raise Unsupported('elementwise operation with %r' % (x,))
@@ -1347,6 +1381,8 @@ class ONP:
         symbolic masks; used as an index itself it behaves as the plain numpy array"""
         if isinstance(v, (list, tuple)) and any(isinstance(x, (PA, SInt)) for x in v):
             raise Unsupported('array() of a list holding symbolic entries')
+        if isinstance(dtype, type) and issubclass(dtype, int) and dtype is not bool:
+            dtype = int            # the builtin-int shim of the loaded namespace
         a = onp.asarray(v, dtype=dtype)
         if a.dtype == object or a.dtype.kind not in 'iub' or a.ndim == 0:
             return a
@@ -1504,6 +1540,17 @@ class ONP:
 
     logical_not = invert
 
+    def where(self, c, a=None, b=None):
+        if not any(isinstance(x, PA) for x in (c, a, b)):
+            return onp.where(c) if a is None else onp.where(c, a, b)
+        if a is None or not isinstance(c, PA) or c.kind != 'b':
+            raise Unsupported('where() of this form')
+        kind = 'f' if any((isinstance(x, PA) and x.kind == 'f') or isinstance(x, float) for x in (a, b)) else ('b' if all(isinstance(x, PA) and x.kind == 'b' for x in (a, b)) else 'i')
+        t = _ew2(c, a, lambda cc, x: (cc, x), 'f')           # pairs, broadcast
+        r = _ew2(t, b, lambda cx, y: ite(cx[0], cx[1], y, kind), kind)
+        r.kind = kind
+        return r
+
     def square(self, x):
         if isinstance(x, SInt):
             return SInt(table_mul(x.z, x.cap, x.z), x.cap * x.cap)
@@ -1654,8 +1701,9 @@ def sz(x):
 
 # ------------------------------------------------------------------------------------------ bounded meshes and BC lists
 class Cfg:
-    def __init__(self, name, coords, conns, dim, extra=True):
+    def __init__(self, name, coords, conns, dim, extra=True, blocks=None):
         self.name, self.coords, self.conns, self.dim = name, coords, conns, dim
+        self.blocks = blocks           # ordered ((name, element ids), ...) -> mesh.blocks dict in this order; None: no blocks
         self.nN, self.nEl = len(coords), len(conns)
         self.ndof = self.nN * dim
         self.nD = len(conns[0]) * dim          # dofs per element (3 nodes for the P1 meshes)
@@ -1667,7 +1715,7 @@ class Cfg:
         self.sets = sorted({s for s, _ in self.bcs})
 
     def describe(self):
-        return '%s: %d P1 triangle(s) %s, %d nodes, %d field(s) per node (%d dofs); essential BCs (nodeSet, component) = %s' % (
+        return ('' if self.blocks is None else 'mesh.blocks = %s (dict order); ' % (dict(self.blocks),)) + '%s: %d triangle(s) %s, %d nodes, %d field(s) per node (%d dofs); essential BCs (nodeSet, component) = %s' % (
             self.name, self.nEl, self.conns, self.nN, self.dim, self.ndof, self.bcs)
 
 
@@ -1676,8 +1724,20 @@ TRI2 = ([[0.0, 0.0], [1.0, 0.0], [1.0, 1.0], [0.0, 1.0]], [[0, 1, 2], [0, 2, 3]]
 TRI2B = ([[1.0, 1.0], [0.0, 0.0], [0.0, 1.0], [1.0, 0.0]], [[3, 0, 1], [2, 1, 0]])       # another numbering of the same two triangles
 
 
+TRI1GAP = ([[0.0, 0.0], [1.0, 0.0], [0.5, 0.5], [0.0, 1.0]], [[0, 1, 3]])          # node 2 (middle of the node list) belongs to no element
+STRIP4 = ([[0.0, 0.0], [1.0, 0.0], [2.0, 0.0], [0.0, 1.0], [1.0, 1.0], [2.0, 1.0]], [[0, 1, 4], [0, 4, 3], [1, 2, 5], [1, 5, 4]])
+
+
+def block_cfgs():
+    """meshes WITH element blocks whose concatenation in dictionary order is not 0..nEl-1 (DofManager must not depend on it)"""
+    return [Cfg('tri2_f1_blocks_b1_a0', *TRI2, 1, blocks=(('b', (1,)), ('a', (0,)))),
+            Cfg('tri2_f2_blocks_b1_a0', *TRI2, 2, extra=False, blocks=(('b', (1,)), ('a', (0,)))),
+            Cfg('strip4_f1_blocks_interleaved', *STRIP4, 1, extra=False, blocks=(('x', (0, 2)), ('y', (1, 3))))]
+
+
 def cfgs(tier_thorough):
-    out = [Cfg('tri1_f1', *TRI1, 1), Cfg('tri1_f2', *TRI1, 2), Cfg('tri2_f1', *TRI2, 1), Cfg('tri2_f2', *TRI2, 2), Cfg('tri2b_f2', *TRI2B, 2)]
+    out = [Cfg('tri1_f1', *TRI1, 1), Cfg('tri1_f2', *TRI1, 2), Cfg('tri2_f1', *TRI2, 1), Cfg('tri2_f2', *TRI2, 2), Cfg('tri2b_f2', *TRI2B, 2),
+           Cfg('tri1gap_f2', *TRI1GAP, 2, extra=False)]
     if tier_thorough:
         out += [Cfg('tri1_f3', *TRI1, 3), Cfg('tri2_f3', *TRI2, 3)]
     return out
@@ -1750,7 +1810,8 @@ def real_function_space(cfg, nodeSets, mode2D='cartesian'):
     import jax.numpy as jnp
     from optimism import FunctionSpace, Mesh, Interpolants, QuadratureRule
     pe, pe1 = Interpolants.make_parent_elements(1)
-    mesh = Mesh.Mesh(jnp.array(cfg.coords), jnp.array(cfg.conns), None, pe, pe1, {'block_0': jnp.arange(cfg.nEl)}, nodeSets, None)
+    blocks = {'block_0': jnp.arange(cfg.nEl)} if cfg.blocks is None else {k: jnp.array(v) for k, v in cfg.blocks}
+    mesh = Mesh.Mesh(jnp.array(cfg.coords), jnp.array(cfg.conns), None, pe, pe1, blocks, nodeSets, None)
     return FunctionSpace.construct_function_space(mesh, QuadratureRule.create_quadrature_rule_on_triangle(1), mode2D)
 
 
@@ -1769,7 +1830,8 @@ def build_dof_manager(cfg, member, symbolic, mod=None):
                 nodeSets[s] = PA(d, 'i', (member[s].length,), cfg.nN - 1)
             else:
                 nodeSets[s] = ar[dense_pa(member[s], 'b')]            # index array of symbolic length
-        mesh = Mesh.Mesh(onp.asarray(cfg.coords), onp.asarray(cfg.conns), None, None, None, None, nodeSets, None)
+        blocks = None if cfg.blocks is None else {k: onp.asarray(v) for k, v in cfg.blocks}
+        mesh = Mesh.Mesh(onp.asarray(cfg.coords), onp.asarray(cfg.conns), None, None, None, blocks, nodeSets, None)
         fs = types.SimpleNamespace(mesh=mesh)
         FS = mod
     else:
@@ -2150,7 +2212,7 @@ GOALS_COO = ['hessian_bc_mask_marks_the_unknown_by_unknown_entries', 'coo_length
 def o0(h):
     """translator validation (ground facts, not the check): on EVERY concrete mask of the bounded meshes the padded-array model
     of the executed source gives the same attributes and method results as the real DofManager on real numpy / jax arrays"""
-    cs = [c for c in cfgs(False)]
+    cs = [c for c in cfgs(False)] + block_cfgs()
     _meta(h, cs, 'O0: all 2^ndof masks of each mesh with <= 8 dofs; thorough: also all 512 masks of tri1 x 3 fields and 1024 masks of tri2 x 3 fields (every fourth)')
     if h.replay is not None:
         return
@@ -2213,7 +2275,7 @@ def o4(h):
 
 
 def _register_coo():
-    for c in cfgs(True):
+    for c in cfgs(True) + block_cfgs():
         three = c.dim == 3
         heavy = three and c.nEl == 2
 
